@@ -1,7 +1,7 @@
 """C04 - every order follows the policy."""
 import random, warnings
 from fractions import Fraction as F
-import simlib, simstream, core
+import simlib, simstream, core, mplib
 from core import fr, unfr
 TRUSTED = ["exact regime; BEBS policies are outside the property and not modelled; BIG_FLOAT (1e100) modelled as no capacity"]
 THEOREM = 'Props/C04.list'
@@ -151,8 +151,11 @@ def run(rep, drv):
 	for k in range(1500 if th else 150):
 		kernel_case(rep, drv, simlib.gen_spec(rng, th))
 	ebs_equiv(rep, drv, 600 if th else 80, th)
+	mplib.run_mp_stream(rep, drv, 'C04', THEOREM + ' + Props/MP (ipMulti_single, earmark_bounds, rmOrders_sum)', 400 if th else 50, th, seed_off=14)
 
 def replay(rep, drv, doc):
+	if doc['stream'] == 'mp-kernels':
+		return mplib.mp_case(rep, drv, doc['case'], 'C04', THEOREM)
 	if doc['stream'] == 'order-kernel':
 		kernel_case(rep, drv, doc['case'])
 	elif doc['stream'] == 'policy-pure':
